@@ -12,3 +12,6 @@ open WebPkg.C16
 #print axioms parse_serialize_parse_pl
 #print axioms parse_serialize_parse_ll
 #print axioms int_roundtrip
+#print axioms parser_grammar_pl
+#print axioms parser_grammar_ll
+#print axioms parser_grammar_item
